@@ -1064,7 +1064,8 @@ fn parse_expr(
 
                 let value_span = value_node.as_span();
 
-                let fallback = Parser::value(value_node)?;
+                // evaluated only when the primary is `nil`
+                let fallback = user_data.conditionally_evaluated(|| Parser::value(value_node))?;
 
                 let fallback_ty = fallback.for_type(&TypecheckFlags::use_class(user_data.get_type_of_executing_class())).details(value_span, &user_data.get_source_file_name(), format!("this value cannot be used as a fallback for `{lhs_ty}`")).to_err_vec()?;
 
